@@ -67,8 +67,11 @@ class C04(Prop):
                 fails.append({"msg": "frame %d: an entry was read for a header the file does not hold" % idx})
             if inner in d and (o["prev"] == "~" or unhx(o["prev"].split("@")[0]) != d[inner].rstrip(b"\n") and unhx(o["prev"].split("@")[0]) != d[inner]):
                 fails.append({"msg": "frame %d: reading %r returned %s, the entry holds %r" % (idx, i, o["prev"], d[inner])})
-            if o["added"] not in ("!", "~") and parse_entries(unhx(o["added"])) != ents + [(inner, v)]:
-                fails.append({"msg": "frame %d: appending did not add exactly one entry at the end" % idx})
+            if o["added"] not in ("!", "~"):
+                # exactly one new entry, the old ones untouched and in their order (WHERE the new one goes is not the property's business)
+                got_ = parse_entries(unhx(o["added"]))
+                if [e_ for e_ in got_ if e_ != (inner, v)] != ents or got_.count((inner, v)) != 1 + ents.count((inner, v)):
+                    fails.append({"msg": "frame %d: adding an entry did not add exactly one entry and keep the others in place" % idx})
             if inner in d and o["updated"] not in ("!", "~"):
                 exp = [(a, v if a == inner else b_) for a, b_ in ents]
                 if parse_entries(unhx(o["updated"])) != exp:
